@@ -7,7 +7,7 @@ import datetime as dt
 ID = "C15"
 BACKENDS = ("py", "rs")
 GEN_MODULES = ("Tables", "Helpers")
-MIN_THEOREMS = 12
+MIN_THEOREMS = 19
 RULE = ("ops: isleap/islong/diy for every year 1..9999; weekday/getters on dates (quick: every date of 12 pattern years, "
         "every month start/end of every year, random dates; thorough: all 3,652,059 dates); localtime on day boundaries "
         "-1s/0/+1s and random seconds x offsets -86399..86399 over years 1..9999. non-trivial = distinct op whose year is a "
